@@ -19,6 +19,7 @@ import (
 	"github.com/datastax/go-cassandra-native-protocol/segment"
 
 	"verif/internal/mon"
+	"verif/internal/scribble"
 )
 
 // ---------------------------------------------------------------------------------------------
@@ -95,6 +96,7 @@ type call struct {
 	kind      string
 	unordered bool // result bytes depend on Go map iteration order: compare byte histograms
 	heavy     bool // see heavyBytes
+	edit      bool // after the comparison, edit the decoded frame in place (see editResult)
 	retain    bool // keep the returned value and compare it AGAIN later (before the next run of this call and at the end of the phase)
 	bigLz4    bool // an LZ4 compression of more than 64 KiB: also counted in bigLz4Inside
 	fn        func() (interface{}, error)
@@ -278,7 +280,7 @@ func (b *builder) frameOps(id int, codec frame.Codec, fc frameCase) {
 		src := bytes.NewReader(enc)
 		f, err := codec.DecodeFrame(src)
 		return decoded{f, src.Len()}, err
-	})
+	}).edit = true
 	raw, isRaw := codec.(frame.RawCodec)
 	if !isRaw || id == idPlain {
 		return
@@ -316,7 +318,7 @@ func (b *builder) frameOps(id int, codec frame.Codec, fc frameCase) {
 	b.add(id, "ConvertFromRawFrame", k, false, func() (interface{}, error) {
 		f, err := raw.ConvertFromRawFrame(rf2)
 		return f, err
-	})
+	}).edit = true
 	h3 := headerCopy(refHeader)
 	body3 := fc.f.Body.DeepCopy()
 	b.heavy = lz4Compress
@@ -337,7 +339,7 @@ func (b *builder) frameOps(id int, codec frame.Codec, fc frameCase) {
 		}
 		body, err := raw.DecodeBody(h, src)
 		return decoded{[]interface{}{h, body}, src.Len()}, err
-	})
+	}).edit = true
 	b.add(id, "DecodeHeader+DecodeRawBody", k, false, func() (interface{}, error) {
 		src := bytes.NewBuffer(cp(enc)) // a *bytes.Buffer source this time
 		h, err := raw.DecodeHeader(src)
@@ -581,6 +583,50 @@ func (b *builder) poisonOps(r *mon.Rand) {
 			err := c.codec.EncodeFrame(f2, w)
 			return w.buf.Bytes(), err
 		})
+	}
+}
+
+// editResult: what a decoded frame's owner is entitled to do with it. Once the result has been compared,
+// the frame is edited in place: custom payload, tracing id and warnings are set on its body, and every byte,
+// number and string reachable from it is overwritten (scribble never replaces pointers). If the codec handed
+// out something it shares with other callers, the next decode differs from the reference and -race sees the write.
+func editResult(res interface{}) {
+	edit := func(body *frame.Body, hdr *frame.Header) {
+		if body == nil {
+			return
+		}
+		body.TracingId = &primitive.UUID{0x5c, 0x21, 0xbb}
+		body.CustomPayload = map[string][]byte{"scribbled": {1, 2, 3}}
+		body.Warnings = []string{"scribbled"}
+		scribble.Over(body)
+		if hdr != nil {
+			scribble.Over(hdr)
+		}
+	}
+	switch v := res.(type) {
+	case decoded:
+		switch x := v.V.(type) {
+		case *frame.Frame:
+			if x != nil {
+				edit(x.Body, x.Header)
+			}
+		case []interface{}:
+			var h *frame.Header
+			var bd *frame.Body
+			for _, e := range x {
+				switch y := e.(type) {
+				case *frame.Header:
+					h = y
+				case *frame.Body:
+					bd = y
+				}
+			}
+			edit(bd, h)
+		}
+	case *frame.Frame: // ConvertFromRawFrame: the header is the caller's own input, only the body is new
+		if v != nil {
+			edit(v.Body, nil)
+		}
 	}
 }
 
@@ -1021,6 +1067,8 @@ func stress(c *mon.Ctx, label string, sets [][]*call, M, rounds, heavyEvery int,
 						})
 					} else if cl.retain && errs == "" {
 						retained[i], hasRetained[i] = res, true
+					} else if cl.edit && errs == "" {
+						editResult(res)
 					}
 				}
 			}
